@@ -318,6 +318,63 @@ class Inliner:
                     holder.remove(fn)
                     if cls is not None and not cls.body:
                         cls.body.append(ast.Pass())
+        if self.inlined_sites:
+            for q, (mod, cls, fn) in self.defs.items():
+                if q not in self.inl:
+                    _collapse_aliases(fn)
         for tree in self.modules.values():
             ast.fix_missing_locations(tree)
         return self
+
+
+def _own_nodes(fn):
+    out = []
+
+    def rec(n):
+        for ch in ast.iter_child_nodes(n):
+            if isinstance(ch, (ast.FunctionDef, ast.AsyncFunctionDef, ast.Lambda, ast.ClassDef)):
+                continue
+            out.append(ch)
+            rec(ch)
+    rec(fn)
+    return out
+
+
+def _collapse_aliases(fn):
+    """after inlining: `x = _iN_y` where x is bound only there makes _iN_y an alias of x from its birth - rename it to x and drop
+    the copy; bare expression statements of generated names (result of an inlined procedure call) are dropped"""
+    import re
+    gen = re.compile(r'_i\d+_')
+    params = {a.arg for a in fn.args.args + fn.args.kwonlyargs}
+    for _round in range(200):
+        nodes = _own_nodes(fn)
+        hit = None
+        for a in nodes:
+            if isinstance(a, ast.Assign) and len(a.targets) == 1 and isinstance(a.targets[0], ast.Name) and isinstance(a.value, ast.Name) \
+                    and gen.match(a.value.id) and a.targets[0].id not in params and a.targets[0].id != a.value.id:
+                A, B = a.targets[0].id, a.value.id
+                stores = [x for x in nodes if isinstance(x, ast.Name) and x.id == A and isinstance(x.ctx, ast.Store)]
+                if len(stores) == 1:
+                    hit = (a, A, B)
+                    break
+        if hit is None:
+            break
+        a, A, B = hit
+        for x in nodes:
+            if isinstance(x, ast.Name) and x.id == B:
+                x.id = A
+        _drop_stmt(fn, a)
+    for x in _own_nodes(fn):
+        if isinstance(x, ast.Expr) and isinstance(x.value, ast.Name) and gen.match(x.value.id):
+            _drop_stmt(fn, x)
+
+
+def _drop_stmt(root, stmt):
+    for n in ast.walk(root):
+        for field in ('body', 'orelse', 'finalbody'):
+            seq = getattr(n, field, None)
+            if isinstance(seq, list) and stmt in seq:
+                seq.remove(stmt)
+                if not seq and field == 'body':
+                    seq.append(ast.copy_location(ast.Pass(), stmt))
+                return
